@@ -75,6 +75,62 @@ def relativize_errors_padding(up: int, ux: int, has_w: bool, has_h: bool, fit: b
     return _rel_check(_layout(ux, 2, 2, False, True, up), _abs(up) or _abs(ux), _abs(up), has_w, has_h, fit)
 
 
+def _expected_pct(v, u, dim, cells):
+    if u == UnitEnum.PERCENT:
+        return Fraction(v)
+    if u == UnitEnum.PIXEL:
+        return Fraction(v) * 100 / dim
+    if u == UnitEnum.EM:
+        return Fraction(v) * 16 * 100 / dim
+    if u == UnitEnum.PT:
+        return Fraction(v) * 4 / 3 * 100 / dim
+    return Fraction(v) * 100 / cells
+
+
+def relativize_axes(ux: int, uy: int, ue: int, hd: bool) -> str:
+    """
+    pre: 0 <= ux < 5 and 0 <= uy < 5 and 0 <= ue < 5
+    post: _ == ""
+    """
+    up = ue
+    # every component of a layout is a percentage of ITS axis: x, width, start/end padding of the video width
+    # (32 columns), y, height, before/after padding of the video height (15 rows)
+    W, Hh = (1280, 720) if hd else (640, 360)
+    lay = _layout(ux, uy, ue, True, True, up)
+    out = BaseWriter(relativize=True, video_width=W, video_height=Hh, fit_to_screen=False)._relativize_and_fit_to_screen(lay)
+    tol = Fraction(1, 100)
+    checks = ((out.origin.x, 20, _unit(ux), W, 32, "origin x"), (out.origin.y, 30, _unit(uy), Hh, 15, "origin y"),
+              (out.extent.horizontal, 40, _unit(ue), W, 32, "width"), (out.extent.vertical, 10, _unit(ue), Hh, 15, "height"),
+              (out.padding.before, 1, _unit(up), Hh, 15, "padding before"), (out.padding.after, 2, _unit(up), Hh, 15, "padding after"),
+              (out.padding.start, 3, _unit(up), W, 32, "padding start"), (out.padding.end, 4, _unit(up), W, 32, "padding end"))
+    for got, v, u, dim, cells, what in checks:
+        if got.unit != UnitEnum.PERCENT:
+            return what + " not a percentage"
+        if abs(Fraction(str(got.value)) - _expected_pct(v, u, dim, cells)) > tol:
+            return what + " is not the percentage of its own axis"
+    return ""
+
+
+def vtt_zero_lengths(u: int, which: int, rel: bool, dims: bool) -> str:
+    """
+    pre: 0 <= u < 5 and 0 <= which < 4
+    post: _ == ""
+    """
+    # zero-valued lengths in absolute units are absolute lengths all the same: never written as '0px' / '0c'
+    un = _unit(u)
+    P = UnitEnum.PERCENT
+    zx = which in (0, 2)
+    zy = which in (1, 2)
+    lay = Layout(origin=Point(Size(0, un) if zx else Size(20, P), Size(0, un) if zy else Size(30, P)),
+                 extent=Stretch(Size(0, un), Size(10, P)) if which == 3 else None)
+    w = WebVTTWriter(relativize=rel, video_width=640 if dims else None, video_height=360 if dims else None, fit_to_screen=False)
+    try:
+        s = w._convert_positioning(lay)
+    except RelativizationError:
+        return "" if rel else "RelativizationError although relativization is off"
+    return "" if _only_percent(s) else "non-percentage length in cue settings"
+
+
 def _only_percent(settings):
     for tok in settings.split(" "):
         if tok == "":
@@ -173,13 +229,15 @@ def fit_printed(ix: int, iy: int, iw: int, ih: int, has_e: bool) -> str:
 
 
 # --- fit-to-screen is applied after relativization (writer entry point) ----------------------------------
-def writer_fit(unit: int, has_e: bool, big: bool, dims_hd: bool) -> str:
+def writer_fit(unit: int, has_e: bool, big: bool, dims_hd: bool, rel: bool) -> str:
     """
     pre: 0 <= unit < 5
     post: _ == ""
     """
     W, Hh = (1280, 720) if dims_hd else (640, 360)
     u = _unit(unit)
+    if not rel and u != UnitEnum.PERCENT:
+        return ""   # relativization off: only layouts that are percentages already can be fitted
     # the same geometry expressed in the chosen unit: origin (10%, 10%) or (50%, 50%); extent 62.5% x 55.56%
     def h(pct):   # horizontal length of pct percent in unit u
         return {UnitEnum.PIXEL: pct * W / 100.0, UnitEnum.EM: pct * W / 1600.0, UnitEnum.PERCENT: pct,
@@ -191,7 +249,7 @@ def writer_fit(unit: int, has_e: bool, big: bool, dims_hd: bool) -> str:
     o = 50.0 if big else 10.0
     lay = Layout(origin=Point(Size(h(o), u), Size(v(o), u)),
                  extent=Stretch(Size(h(62.5), u), Size(v(55.0), u)) if has_e else None)
-    out = BaseWriter(relativize=True, video_width=W, video_height=Hh, fit_to_screen=True)._relativize_and_fit_to_screen(lay)
+    out = BaseWriter(relativize=rel, video_width=W, video_height=Hh, fit_to_screen=True)._relativize_and_fit_to_screen(lay)
     if out.extent is None:
         return "fit_to_screen was not applied (missing extent left missing)"
     right = out.origin.x.value + out.extent.horizontal.value
